@@ -43,7 +43,10 @@ def pipe_spec(draw, profile):
     nops = draw(st.sampled_from([1, 2, 2, 3, 3, 4, 5]))
     ops = []
     for _ in range(nops):
-        ops.append([draw(seg_spec(profile)) for _ in range(draw(st.sampled_from([1, 1, 1, 2])))])
+        segs = [draw(seg_spec(profile)) for _ in range(draw(st.sampled_from([1, 1, 1, 2])))]
+        if len(segs) >= 2 and draw(st.integers(0, 2)) == 0:
+            segs.append(dict(segs[0]))      # the same stage again (scan, crunch, scan): one Segment object listed twice
+        ops.append(segs)
     return {"ops": ops}
 
 
@@ -73,10 +76,17 @@ ASG_FAULTS = ["cpu_over", "ram_over", "cpu_over", "ram_over", "two_ops", "zero_c
 SUS_FAULTS = ["any", "any", "suspending", "unknown", "dup", "wrongpool", "suspended", "negpool", "negpool", "bigpool"]
 
 
+def pool_no(pools):
+    if pools < 100:
+        return st.integers(0, pools - 1)
+    return st.sampled_from([0, 1, 256, 257, pools - 1, 255, 257])
+
+
 @st.composite
 def machine_spec(draw, profile="general", tier="quick"):
     tps = draw(st.sampled_from(TPS))
-    pools = draw(st.sampled_from([1, 1, 2, 3] if profile != "multi_pool" else [2, 3, 4]))
+    # (a few episodes with some hundred pools: pool numbers above 256 are not interned small ints any more)
+    pools = draw(st.sampled_from([1, 1, 2, 3] if profile != "multi_pool" else [2, 3, 4, 2, 3, 4, 2, 3, 4, 2, 3, 300, 258]))
     cpus = draw(st.sampled_from([1, 2, 4, 8, 16, 64]))
     ram = draw(st.sampled_from([0.5, 2.3, 8, 12.34, 30, 64, 100, 256, 100, 30, 64, 2e9, 1048576]))
     over = draw(st.booleans()) if profile != "oom" else True
@@ -162,12 +172,12 @@ def machine_spec(draw, profile="general", tier="quick"):
         nsus = draw(st.sampled_from([0, 0, 0, 1, 1, 2] if profile != "suspend" else [0, 1, 1, 1, 2]))
         if pools >= 2 and profile in ("multi_pool", "suspend") and draw(st.integers(0, 2)) == 0:
             nsus = draw(st.integers(3, 5))      # several suspensions in one call, pool numbers interleaved
-        sus = [[draw(st.integers(0, pools - 1)), draw(st.integers(0, 5)), "ok"] for _ in range(nsus)]
+        sus = [[draw(pool_no(pools)), draw(st.integers(0, 5)), "ok"] for _ in range(nsus)]
         nasg = draw(st.sampled_from([0, 1, 1, 2, 3, 4] if profile != "oom" else [0, 1, 2, 3, 4, 5]))
         asg = []
         for _ in range(nasg):
             bad = None
-            asg.append([draw(st.integers(0, pools - 1)), draw(st.integers(0, npipes - 1)), draw(st.integers(0, 3)),
+            asg.append([draw(pool_no(pools)), draw(st.integers(0, npipes - 1)), draw(st.integers(0, 3)),
                         list(draw(cpu_spec if profile != "oom" else st.tuples(st.just("abs"), st.integers(1, 2)))),
                         list(draw(ram_spec(profile))), bad])
         # a deliberate inadmissible command in about one step of 12 (an episode ends at its first rejection)
@@ -187,7 +197,7 @@ def machine_spec(draw, profile="general", tier="quick"):
                 else:
                     asg[k][5] = f
             else:
-                sus.append([draw(st.integers(0, pools - 1)), draw(st.integers(0, 5)), draw(st.sampled_from(SUS_FAULTS))])
+                sus.append([draw(pool_no(pools)), draw(st.integers(0, 5)), draw(st.sampled_from(SUS_FAULTS))])
         step = {"sus": sus, "asg": asg, "idle": draw(st.sampled_from([0, 0, 0, 1, 1, 2, 3, 6]))}
         if profile in ("suspend", "twins", "branches", "general") and asg and draw(st.integers(0, 9)) == 0:
             step["for"] = draw(st.sampled_from([1, 2]))
@@ -270,9 +280,13 @@ class Episode:
             real = []
             for segs in ops_real:
                 o = p.new_operator([prev] if prev else None)
+                same = {}
                 for sg in segs:
-                    o.add_segment(Segment(baseline_cpu_seconds=sg["cpu"], cpu_scaling=sg["law"], memory_gb=sg["mem"],
-                                          storage_read_gb=sg["read"]))
+                    key = (sg["cpu"], sg["law"], sg["mem"], sg["read"])
+                    if key not in same or len(real) % 2:
+                        # identical stages of an even-numbered operator are one Segment object added twice
+                        same[key] = Segment(baseline_cpu_seconds=sg["cpu"], cpu_scaling=sg["law"], memory_gb=sg["mem"], storage_read_gb=sg["read"])
+                    o.add_segment(same[key])
                 prev = o
                 real.append(o)
             self.pipes[k] = (MPipe(f"p{first}.{k}", len(real)), p, real, ops_real)
